@@ -139,6 +139,9 @@ def run(ctx):
         ok = ok and B.equivalent(G, B.from_expr(f"self.pending.re & self.pending.r[{idx}]"))
         ctx.ob("V3", EV, "EventManager", "clear[i] = pending.re & pending.r[i]", ok,
                "" if ok else f"{a.t} <= {a.v} under {B.show(G)}: clearing one event can clear another / never clears", a.line)
+    # what `pending.re & pending.r[i]` means is decided in CSRStatus: r latched under the write strobe, re = that strobe delayed
+    from .c12 import status_write_latch
+    status_write_latch(ctx, "V3")
     names = {}
     for reg, attr in (("status", "status"), ("pending", "pending")):
         ds = [a for a in fx.find(domain="comb") if a.t.startswith(f"getattr(self.{reg}.fields,")]
